@@ -12,6 +12,7 @@ import LispModel.Preamble
 import LispModel.Spec.Readable
 import LispModel.Util
 import LispModel.Proofs.Preamble
+import LispModel.Proofs.SeedLaws
 namespace LispModel.Props.C15
 open LispModel LispModel.Read LispModel.Scan LispModel.Preamble
 
@@ -132,5 +133,28 @@ example :
 theorem multiline_raw_value_breaks_transport :
     '\n' ∈ Print.print (.str "{\"k\":\n1}") := by
   decide
+
+/-! ## laws added after the seeded changes of rounds 3–5 -/
+open LispModel.Proofs.SeedLaws (Sy Ls Nm)
+open LispModel.Proofs.SeedLaws.C15 (preambleReadsAs)
+
+/-- with an empty table `AddPreamble` writes just the blank separator line in front of the source … -/
+theorem addPreamble_empty (src : List UInt8) : addPreamble src [] = 10 :: src :=
+  Proofs.SeedLaws.C15.addPreamble_empty src
+
+/-- … so `READWithPreamble (AddPreamble src ∅)` reads `src` ITSELF with the empty table -/
+theorem addPreamble_empty_table (cfg : Cfg) (src : List UInt8) :
+    readWithPreamble cfg (addPreamble src []) =
+      (match readStr { cfg with phs := some [] } src with
+       | .ok r => .ok r
+       | .error e => .err e) :=
+  Proofs.SeedLaws.C15.addPreamble_empty_table cfg src
+
+/-- `src = ";; $x 10\n(list $x)"` sent with an empty table reads as `(list nil)`; handed over without the
+    separator line its first line would be taken for an entry: `(list 10)` -/
+theorem addPreamble_empty_table_example :
+    (preambleReadsAs (addPreamble (bytes% ";; $x 10\n(list $x)") []) (Ls [Sy "list", .nil]) &&
+     preambleReadsAs (bytes% ";; $x 10\n(list $x)") (Ls [Sy "list", Nm 10])) = true :=
+  Proofs.SeedLaws.C15.addPreamble_empty_table_example
 
 end LispModel.Props.C15
